@@ -1,3 +1,4 @@
+import OlVerif.Lower.WfOutStmt
 /-
   C12 -- the member protocol of the class lowering.  A class body is a sequence of stores into a
   namespace; the emitted code stores into a dict (`__ol_classnsp_*`) and then copies
@@ -90,5 +91,62 @@ theorem members (ops : List (String × Nat)) (k : String) :
     (copyOnto [] (runBody ops)).lookup k = (runBody ops).reverse.lookup k := by
   rw [copyOnto_lookup]
   cases (runBody ops).reverse.lookup k <;> simp [List.lookup]
+
+
+/-! ### the shape of a lowered class statement (M-LOWER) -/
+
+/-- **Class statement = create, load, fill (, decorate).**  Whenever a class statement is lowered:
+    (1) the first emitted expression binds the class name - through the namespace of the scope the
+    statement stands in - to a call of the metaclass (the last `metaclass=` keyword, else `type`)
+    with the class name, the tuple of the transformed bases, an empty namespace and the remaining
+    keywords in their order; (2) then the loader lambda, (3) then the copy loop; (4) with decorators,
+    one more store of the class name.  Nothing else is emitted. -/
+theorem class_shape (cx : Ctx) (name : String) (bases : List Expr) (kws : List Keyword) (body : List Stmt)
+    (decos : List Expr) (lineno : Nat) (st : St) (es : List Expr) (st' : St)
+    (h : lowerStmt cx (.classDef name bases kws body decos lineno) st = .ok (es, st')) :
+    ∃ bases' metaE kws' create load fill,
+      transfList cx.nsp [] bases = .ok bases' ∧ classKeywords cx.nsp kws = .ok (metaE, kws') ∧
+      cx.nsp.getAssign name (.call (metaE.getD (.name "type")) [Expr.str name, .tuple bases', .dict []] kws') = .ok create ∧
+      ((decos.isEmpty = true ∧ es = [create, load, fill]) ∨
+       (decos.isEmpty = false ∧ ∃ again, es = [create, load, fill, again])) := by
+  simp only [lowerStmt] at h
+  obtain ⟨inner, hin, h⟩ := bind_ok h
+  obtain ⟨⟨b', st1⟩, hb, h⟩ := bind_ok h
+  obtain ⟨bases', hbs, h⟩ := bind_ok h
+  obtain ⟨⟨metaE, kws'⟩, hk, h⟩ := bind_ok h
+  obtain ⟨create, hcr, h⟩ := bind_ok h
+  obtain ⟨self, hs, h⟩ := bind_ok h
+  obtain ⟨self2, hs2, h⟩ := bind_ok h
+  simp only [] at h
+  by_cases hd : decos.isEmpty = true
+  · rw [if_pos hd] at h
+    cases pure_ok h
+    exact ⟨bases', metaE, kws', create, _, _, hbs, hk, hcr, Or.inl ⟨hd, rfl⟩⟩
+  · rw [if_neg hd] at h
+    obtain ⟨self3, hs3, h⟩ := bind_ok h
+    obtain ⟨decorated, hdd, h⟩ := bind_ok h
+    obtain ⟨r, hr, h⟩ := bind_ok h
+    cases pure_ok h
+    exact ⟨bases', metaE, kws', create, _, _, hbs, hk, hcr, Or.inr ⟨by simpa using hd, _, rfl⟩⟩
+
+/-- a member stored in a class body goes to the class dictionary (unless the name is declared
+    global or lives in an enclosing function's dictionary), and is read back from it -/
+theorem member_store_load (n : Nsp) (x : String) (v : Expr) (i : SymInfo) (hk : n.kind = .class_)
+    (hs : n.sym.lookup x = some i) (hg : i.isDeclaredGlobal = false) (hgl : i.isGlobal = false)
+    (ho : n.outerMap.lookup x = none) (hc : ¬ x ∈ n.globalsInComp) :
+    n.getAssign x v = .ok (dictSetitem n.dictName x v) ∧ n.getLoad [] x = .ok (dictLoad n.dictName x) := by
+  simp [Nsp.getAssign, Nsp.getLoad, hk, hs, hg, hgl, ho, hc]
+
+/-- the last `metaclass=` keyword wins and is removed from the keywords passed on; the other
+    keywords keep their order -/
+theorem metaclass_keyword (n : Nsp) (v : Expr) (ks : List Keyword) (m : Option Expr) (rest : List Keyword)
+    (h : classKeywords n (.mk (some "metaclass") v :: ks) = .ok (m, rest)) :
+    ∃ v' m0, transf n [] v = .ok v' ∧ classKeywords n ks = .ok (m0, rest) ∧ m = some (m0.getD v') := by
+  simp only [classKeywords] at h
+  obtain ⟨v', hv, h⟩ := bind_ok h
+  obtain ⟨⟨m0, rest0⟩, hr, h⟩ := bind_ok h
+  simp at h
+  obtain ⟨rfl, rfl⟩ := h
+  exact ⟨v', m0, hv, hr, rfl⟩
 
 end OlVerif.C12
